@@ -1,61 +1,366 @@
 ------------------------------- MODULE Format -------------------------------
 (***************************************************************************)
-(* C15 - format renders every directive as documented.                     *)
-(* An interpreter over [out, args, ap, stop]: `out` the code points        *)
-(* produced so far, `args` the argument sequence, `ap` the 1-based index   *)
-(* of the next argument, `stop` set by ~^.  The control string is a        *)
-(* sequence of code points.  Arguments are tagged values:                  *)
-(*   [k |-> "int", v |-> BigInt]                                           *)
-(*   [k |-> "str"|"sym"|"chr"|"other", a |-> princ text, s |-> prin1 text] *)
-(*   [k |-> "list", v |-> Seq(arg), a, s]        [k |-> "nil", a, s]       *)
-(* (~A and ~S must agree with princ and prin1, whose texts are logged, so  *)
-(* the printer is not specified a second time here.)                       *)
+(* The format control language as the directive definitions give it (CLHS  *)
+(* 22.3, which slip's documentation of format restates), for the           *)
+(* directives of property C15:                                             *)
+(*   ~A ~S  ~D ~B ~O ~X ~nR  ~R ~:R ~@R ~:@R  ~C  ~% ~& ~| ~~  ~T  ~*       *)
+(*   ~?  ~( ~)  ~[ ~; ~]  ~{ ~}  ~^  ~P   with prefix parameters incl. v, # *)
+(* Format(ctl, args) is an interpreter: control string and arguments in,   *)
+(* text or "err" out.  Text is a sequence of one-character strings.        *)
+(*                                                                         *)
+(* Values: [k |-> "int", neg, ds] (decimal digits, most significant first, *)
+(* any magnitude: TLC's integers are 32 bit, so arithmetic on arguments is *)
+(* done on digit sequences), [k |-> "str", v], [k |-> "chr", v],           *)
+(* [k |-> "sym", v], [k |-> "nil"], [k |-> "list", v].                      *)
+(*                                                                         *)
+(* Conventions that CLHS leaves open are taken from slip's documentation   *)
+(* and pinned tests and generalised: digits above 9 in lower case; English *)
+(* numbers without hyphen or "and" ("one thousand two hundred thirty       *)
+(* four"), "negative" for the sign, "zeroth".                              *)
 (***************************************************************************)
-EXTENDS BigInt, TLC, FiniteSets
-TILDE == 126  NL == 10  SP == 32  COMMA == 44  COLON == 58  ATS == 64  QUOTE == 39  HASH == 35
-Upper(c) == IF c >= 97 /\ c <= 122 THEN c - 32 ELSE c
-Lower(c) == IF c >= 65 /\ c <= 90 THEN c + 32 ELSE c
-IsDigit(c) == c >= 48 /\ c <= 57
-IsAlpha(c) == (c >= 65 /\ c <= 90) \/ (c >= 97 /\ c <= 122)
-Rep(c, n) == [i \in 1..(IF n > 0 THEN n ELSE 0) |-> c]
-RECURSIVE Flat(_)
-Flat(ss) == IF ss = <<>> THEN <<>> ELSE ss[1] \o Flat(Tail(ss))
-Str(s) == s      \* strings are already code-point sequences in this module
+EXTENDS Integers, Sequences, TLC, FiniteSets
 
-\* ---- digits ------------------------------------------------------------------------------
-RECURSIVE DivSmallFrom(_, _, _, _)       \* long division of limbs (high to low) by a small d
-DivSmallFrom(m, d, i, rem) == IF i = 0 THEN [q |-> <<>>, r |-> rem]
-                              ELSE LET cur == rem * B + m[i]
-                                       rest == DivSmallFrom(m, d, i - 1, cur % d)
-                                   IN [q |-> Append(rest.q, cur \div d), r |-> rest.r]
-DivSmall(m, d) == LET x == DivSmallFrom(m, d, Len(m), 0) IN [q |-> Norm(x.q), r |-> x.r]
-DigitCP(d) == IF d < 10 THEN 48 + d ELSE 87 + d            \* 0-9 a-z
-RECURSIVE MagDigits(_, _)
-MagDigits(m, base) == IF m = <<>> THEN <<>> ELSE LET x == DivSmall(m, base) IN Append(MagDigits(x.q, base), DigitCP(x.r))
-DigitsOf(x, base) == IF x.s = 0 THEN <<48>> ELSE MagDigits(x.m, base)
+Chars(s) == [i \in 1..Len(s) |-> SubSeq(s, i, i)]
+RECURSIVE Flat(_)
+Flat(ss) == IF ss = <<>> THEN <<>> ELSE Head(ss) \o Flat(Tail(ss))
+
+Lowers == Chars("abcdefghijklmnopqrstuvwxyz")
+Uppers == Chars("ABCDEFGHIJKLMNOPQRSTUVWXYZ")
+DigitCs == Chars("0123456789abcdefghijklmnopqrstuvwxyz")
+Pos(c, cs) == IF \E i \in 1..Len(cs) : cs[i] = c THEN CHOOSE i \in 1..Len(cs) : cs[i] = c ELSE 0
+IsDigit(c) == Pos(c, SubSeq(DigitCs, 1, 10)) > 0
+DigitVal(c) == Pos(c, DigitCs) - 1
+IsLetter(c) == Pos(c, Lowers) > 0 \/ Pos(c, Uppers) > 0
+IsAlnum(c) == IsLetter(c) \/ IsDigit(c)
+Up(c) == LET i == Pos(c, Lowers) IN IF i > 0 THEN Uppers[i] ELSE c
+Down(c) == LET i == Pos(c, Uppers) IN IF i > 0 THEN Lowers[i] ELSE c
+NL == "\n"
+Rep(c, n) == [i \in 1..(IF n > 0 THEN n ELSE 0) |-> c]
+Max(a, b) == IF a > b THEN a ELSE b
+
+(***************************************************************************)
+(* Integers as digit sequences                                             *)
+(***************************************************************************)
+RECURSIVE NatDigits(_)
+NatDigits(n) == IF n < 10 THEN <<n>> ELSE Append(NatDigits(n \div 10), n % 10)
+IntV(n) == [k |-> "int", neg |-> n < 0, ds |-> NatDigits(IF n < 0 THEN -n ELSE n)]
+RECURSIVE DsVal(_, _)
+DsVal(ds, acc) == IF ds = <<>> THEN acc ELSE DsVal(Tail(ds), acc * 10 + Head(ds))
+Small(v) == v.k = "int" /\ Len(v.ds) <= 8
+Val(v) == LET n == DsVal(v.ds, 0) IN IF v.neg THEN -n ELSE n
+IsZero(v) == v.ds = <<0>>
+\* one step of long division of a decimal digit sequence by a small number: <<quotient digits, remainder>>
+RECURSIVE DivStep(_, _, _, _)
+DivStep(ds, b, rem, acc) == IF ds = <<>> THEN <<acc, rem>>
+                            ELSE LET cur == rem * 10 + Head(ds) IN DivStep(Tail(ds), b, cur % b, Append(acc, cur \div b))
+RECURSIVE Strip(_)
+Strip(ds) == IF Len(ds) > 1 /\ Head(ds) = 0 THEN Strip(Tail(ds)) ELSE ds
+\* the digits of the number in base b (most significant first), as digit values
+RECURSIVE ToBase(_, _, _)
+ToBase(ds, b, acc) == LET r == DivStep(ds, b, 0, <<>>)  q == Strip(r[1]) IN
+                      IF q = <<0>> THEN <<r[2]>> \o acc ELSE ToBase(q, b, <<r[2]>> \o acc)
+DigitsIn(v, base) == LET t == ToBase(v.ds, base, <<>>) IN [i \in DOMAIN t |-> DigitCs[t[i] + 1]]
+
 RECURSIVE Group(_, _, _)
 Group(ds, cc, iv) == IF Len(ds) <= iv THEN ds
                      ELSE Group(SubSeq(ds, 1, Len(ds) - iv), cc, iv) \o <<cc>> \o SubSeq(ds, Len(ds) - iv + 1, Len(ds))
-SmallInt(x) == x.s * (IF Len(x.m) = 0 THEN 0 ELSE IF Len(x.m) = 1 THEN x.m[1] ELSE x.m[1] + B * x.m[2])   \* for |x| < 2^30
 
-\* ---- English and Roman numerals -------------------------------------------------------------
-S(str) == str
-Ones == << "one", "two", "three", "four", "five", "six", "seven", "eight", "nine", "ten", "eleven", "twelve", "thirteen",
-           "fourteen", "fifteen", "sixteen", "seventeen", "eighteen", "nineteen" >>
-Tens == << "", "twenty", "thirty", "forty", "fifty", "sixty", "seventy", "eighty", "ninety" >>
-OrdOnes == << "first", "second", "third", "fourth", "fifth", "sixth", "seventh", "eighth", "ninth", "tenth", "eleventh", "twelfth",
-              "thirteenth", "fourteenth", "fifteenth", "sixteenth", "seventeenth", "eighteenth", "nineteenth" >>
-OrdTens == << "", "twentieth", "thirtieth", "fortieth", "fiftieth", "sixtieth", "seventieth", "eightieth", "ninetieth" >>
-Illions == << "", " thousand", " million", " billion", " trillion", " quadrillion", " quintillion", " sextillion", " septillion",
-              " octillion", " nonillion", " decillion", " undecillion", " duodecillion", " tredecillion", " quattuordecillion",
-              " quindecillion", " sexdecillion", " septendecillion", " octodecillion", " novemdecillion", " vigintillion" >>
-\* words are carried as sequences of TLA+ strings (joined by the harness-side comparison through WordsCP)
-Below1000(n, ordinal) ==        \* n in 1..999 -> sequence of words; the last word is ordinal if asked
-  LET h == n \div 100  r == n % 100
-      tail == IF r = 0 THEN <<>>
-              ELSE IF r < 20 THEN <<IF ordinal THEN OrdOnes[r] ELSE Ones[r]>>
-              ELSE IF r % 10 = 0 THEN <<IF ordinal THEN OrdTens[r \div 10] ELSE Tens[r \div 10]>>
-              ELSE <<Tens[r \div 10] \o "-" \o (IF ordinal THEN OrdOnes[r % 10] ELSE Ones[r % 10])>>
-      head == IF h = 0 THEN <<>> ELSE IF r = 0 /\ ordinal THEN <<Ones[h], "hundredth">> ELSE <<Ones[h], "hundred">>
-  IN head \o tail
+(***************************************************************************)
+(* princ and prin1 of the values                                           *)
+(***************************************************************************)
+\* dev: the named deviations of the implementation that are listed as open findings (the empty set is the definition).
+\*   "nested-strings-quoted": princ of a list writes the strings inside it between double quotes (without escapes)
+RECURSIVE Show(_, _, _, _)
+RECURSIVE ShowElems(_, _, _)
+Show(v, esc, dev, nested) ==
+  CASE v.k = "int" -> (IF v.neg THEN <<"-">> ELSE <<>>) \o DigitsIn(v, 10)
+    [] v.k = "str" -> IF esc THEN <<"\"">> \o Flat([i \in DOMAIN v.v |-> IF v.v[i] \in {"\"", "\\"} THEN <<"\\", v.v[i]>> ELSE <<v.v[i]>>]) \o <<"\"">>
+                      ELSE IF nested /\ "nested-strings-quoted" \in dev THEN <<"\"">> \o v.v \o <<"\"">>
+                      ELSE v.v
+    [] v.k = "chr" -> IF esc THEN <<"#", "\\">> \o (IF v.v = " " THEN Chars("Space") ELSE IF v.v = NL THEN Chars("Newline") ELSE <<v.v>>) ELSE <<v.v>>
+    [] v.k = "sym" -> v.v
+    [] v.k = "nil" -> Chars("nil")
+    [] v.k = "list" -> IF v.v = <<>> THEN Chars("nil") ELSE <<"(">> \o ShowElems(v.v, esc, dev) \o <<")">>     \* the empty list is nil
+ShowElems(vs, esc, dev) == IF vs = <<>> THEN <<>> ELSE IF Len(vs) = 1 THEN Show(vs[1], esc, dev, TRUE)
+                           ELSE Show(vs[1], esc, dev, TRUE) \o <<" ">> \o ShowElems(Tail(vs), esc, dev)
+Princ(v, dev) == Show(v, FALSE, dev, FALSE)
+Prin1(v) == Show(v, TRUE, {}, FALSE)
+
+(***************************************************************************)
+(* English and Roman numbers                                               *)
+(***************************************************************************)
+Ones == <<"one", "two", "three", "four", "five", "six", "seven", "eight", "nine">>
+Teens == <<"ten", "eleven", "twelve", "thirteen", "fourteen", "fifteen", "sixteen", "seventeen", "eighteen", "nineteen">>
+Tens == <<"twenty", "thirty", "forty", "fifty", "sixty", "seventy", "eighty", "ninety">>
+Scales == <<"thousand", "million", "billion", "trillion", "quadrillion", "quintillion", "sextillion", "septillion", "octillion",
+            "nonillion", "decillion", "undecillion", "duodecillion", "tredecillion", "quattuordecillion", "quindecillion",
+            "sexdecillion", "septendecillion", "octodecillion", "novemdecillion", "vigintillion">>
+OrdOf(w) == CASE w = "one" -> "first" [] w = "two" -> "second" [] w = "three" -> "third" [] w = "five" -> "fifth"
+              [] w = "eight" -> "eighth" [] w = "nine" -> "ninth" [] w = "twelve" -> "twelfth"
+              [] w \in {"twenty", "thirty", "forty", "fifty", "sixty", "seventy", "eighty", "ninety"} -> SubSeq(w, 1, Len(w) - 1) \o "ieth"
+              [] OTHER -> w \o "th"
+Words3(h, t, u) == (IF h > 0 THEN <<Ones[h], "hundred">> ELSE <<>>)
+                   \o (IF t = 1 THEN <<Teens[u + 1]>> ELSE (IF t >= 2 THEN <<Tens[t - 1]>> ELSE <<>>) \o (IF u > 0 THEN <<Ones[u]>> ELSE <<>>))
+\* ds: digits, length a multiple of 3; k: number of three-digit groups after the first one of ds
+RECURSIVE GroupWords(_)
+GroupWords(ds) == IF ds = <<>> THEN <<>>
+                  ELSE LET k == (Len(ds) \div 3) - 1  w == Words3(ds[1], ds[2], ds[3]) IN
+                       (IF w = <<>> THEN <<>> ELSE IF k > 0 THEN Append(w, Scales[k]) ELSE w) \o GroupWords(SubSeq(ds, 4, Len(ds)))
+PadTo3(ds) == Rep(0, (3 - (Len(ds) % 3)) % 3) \o ds
+EnglishTooBig(v) == Len(v.ds) > 66
+CardinalWords(v) == IF IsZero(v) THEN <<"zero">> ELSE (IF v.neg THEN <<"negative">> ELSE <<>>) \o GroupWords(PadTo3(v.ds))
+OrdinalWords(v) == LET w == CardinalWords(v) IN IF IsZero(v) THEN <<"zeroth">> ELSE [w EXCEPT ![Len(w)] = OrdOf(@)]
+RECURSIVE JoinWords(_)
+JoinWords(ws) == IF ws = <<>> THEN <<>> ELSE IF Len(ws) = 1 THEN Chars(ws[1]) ELSE Chars(ws[1]) \o <<" ">> \o JoinWords(Tail(ws))
+
+RomanNew == << <<"", "I", "II", "III", "IV", "V", "VI", "VII", "VIII", "IX">>, <<"", "X", "XX", "XXX", "XL", "L", "LX", "LXX", "LXXX", "XC">>,
+               <<"", "C", "CC", "CCC", "CD", "D", "DC", "DCC", "DCCC", "CM">>, <<"", "M", "MM", "MMM">> >>
+RomanOld == << <<"", "I", "II", "III", "IIII", "V", "VI", "VII", "VIII", "VIIII">>, <<"", "X", "XX", "XXX", "XXXX", "L", "LX", "LXX", "LXXX", "LXXXX">>,
+               <<"", "C", "CC", "CCC", "CCCC", "D", "DC", "DCC", "DCCC", "DCCCC">>, <<"", "M", "MM", "MMM">> >>
+\* CLHS: ~@R prints 1..3999 (old style 1..4999 in some implementations; 3999 is the range slip documents by its tables)
+RomanOK(v) == ~v.neg /\ ~IsZero(v) /\ Len(v.ds) <= 4 /\ (Len(v.ds) < 4 \/ v.ds[1] <= 3)
+Roman(v, table) == LET n == Len(v.ds) IN Flat([i \in 1..n |-> Chars(table[n - i + 1][v.ds[i] + 1])])
+
+(***************************************************************************)
+(* Directive syntax:  ~ [param {, param}] [: | @]* char                    *)
+(* param: [t |-> "none"] | [t |-> "int", v] | [t |-> "chr", v] | "v" | "#" *)
+(***************************************************************************)
+RECURSIVE ReadInt(_, _, _)
+ReadInt(ctl, p, acc) == IF p <= Len(ctl) /\ IsDigit(ctl[p]) THEN ReadInt(ctl, p + 1, acc * 10 + DigitVal(ctl[p])) ELSE [v |-> acc, p |-> p]
+RECURSIVE ReadParams(_, _, _)
+AfterParam(ctl, p, acc) == IF p <= Len(ctl) /\ ctl[p] = "," THEN ReadParams(ctl, p + 1, acc) ELSE [params |-> acc, p |-> p]
+ReadParams(ctl, p, acc) ==
+  IF p > Len(ctl) THEN [params |-> acc, p |-> p]
+  ELSE LET c == ctl[p] IN
+    IF IsDigit(c) THEN LET r == ReadInt(ctl, p, 0) IN AfterParam(ctl, r.p, Append(acc, [t |-> "int", v |-> r.v]))
+    ELSE IF c \in {"-", "+"} /\ p < Len(ctl) /\ IsDigit(ctl[p + 1])
+      THEN LET r == ReadInt(ctl, p + 1, 0) IN AfterParam(ctl, r.p, Append(acc, [t |-> "int", v |-> IF c = "-" THEN -r.v ELSE r.v]))
+    ELSE IF c = "'" /\ p < Len(ctl) THEN AfterParam(ctl, p + 2, Append(acc, [t |-> "chr", v |-> ctl[p + 1]]))
+    ELSE IF c \in {"v", "V"} THEN AfterParam(ctl, p + 1, Append(acc, [t |-> "v"]))
+    ELSE IF c = "#" THEN AfterParam(ctl, p + 1, Append(acc, [t |-> "#"]))
+    ELSE IF c = "," THEN ReadParams(ctl, p + 1, Append(acc, [t |-> "none"]))
+    ELSE [params |-> acc, p |-> p]
+RECURSIVE ReadMods(_, _, _, _)
+ReadMods(ctl, p, colon, at) == IF p <= Len(ctl) /\ ctl[p] = ":" THEN ReadMods(ctl, p + 1, TRUE, at)
+                               ELSE IF p <= Len(ctl) /\ ctl[p] = "@" THEN ReadMods(ctl, p + 1, colon, TRUE)
+                               ELSE [colon |-> colon, at |-> at, p |-> p]
+\* p is the position just after the tilde
+ParseDir(ctl, p) == LET ps == ReadParams(ctl, p, <<>>)  ms == ReadMods(ctl, ps.p, FALSE, FALSE)
+                    IN [params |-> ps.params, colon |-> ms.colon, at |-> ms.at,
+                        ch |-> IF ms.p <= Len(ctl) THEN Down(ctl[ms.p]) ELSE "", next |-> ms.p + 1]
+\* the directive closing the block opened just before position p; also the ~; separators at nesting depth 0
+RECURSIVE Scan(_, _, _, _, _, _)
+Scan(ctl, p, open, close, depth, seps) ==
+  IF p > Len(ctl) THEN [end |-> 0, after |-> 0, seps |-> seps, colon |-> FALSE]
+  ELSE IF ctl[p] # "~" THEN Scan(ctl, p + 1, open, close, depth, seps)
+  ELSE LET d == ParseDir(ctl, p + 1) IN
+       IF d.ch = close /\ depth = 0 THEN [end |-> p, after |-> d.next, seps |-> seps, colon |-> d.colon]
+       ELSE IF d.ch = close THEN Scan(ctl, d.next, open, close, depth - 1, seps)
+       ELSE IF d.ch = open THEN Scan(ctl, d.next, open, close, depth + 1, seps)
+       ELSE IF d.ch = ";" /\ depth = 0 THEN Scan(ctl, d.next, open, close, depth, Append(seps, [at |-> p, next |-> d.next, colon |-> d.colon]))
+       ELSE Scan(ctl, d.next, open, close, depth, seps)
+
+(***************************************************************************)
+(* Interpreter state:                                                      *)
+(*   out   text produced so far            args, ap   arguments, next one  *)
+(*   stop  "no" | "up" (a ~^ fired: leave the enclosing ~{ or control      *)
+(*         string) | "all" (~:^ fired: leave the whole ~:{ )               *)
+(*   err   "" or the reason format must signal an error                    *)
+(*   more  inside ~:{ : TRUE when further sublists follow (for ~:^)        *)
+(***************************************************************************)
+St(out, args, ap, dev) == [out |-> out, args |-> args, ap |-> ap, stop |-> "no", err |-> "", more |-> FALSE, dev |-> dev]
+Fail(st, why) == [st EXCEPT !.err = why]
+Left(st) == Len(st.args) - st.ap + 1
+\* the column: characters since the last start of a line (a page separator starts a line too)
+Col(out) == LET nls == {i \in 1..Len(out) : out[i] \in {NL, "\f", "\r"}} IN IF nls = {} THEN Len(out) ELSE Len(out) - (CHOOSE i \in nls : \A j \in nls : j <= i)
+
+\* prefix parameters are resolved left to right before the directive acts: v takes the next argument (nil = omitted),
+\* # is the number of arguments left
+RECURSIVE Resolve(_, _, _)
+Resolve(st, ps, acc) ==
+  IF ps = <<>> \/ st.err # "" THEN [st |-> st, ps |-> acc]
+  ELSE LET p == Head(ps) IN
+    IF p.t = "v" THEN
+      IF Left(st) < 1 THEN [st |-> Fail(st, "!no argument for a v parameter"), ps |-> acc]
+      ELSE LET a == st.args[st.ap]  st2 == [st EXCEPT !.ap = @ + 1] IN
+           IF a.k = "nil" THEN Resolve(st2, Tail(ps), Append(acc, [t |-> "none"]))
+           ELSE IF a.k = "chr" THEN Resolve(st2, Tail(ps), Append(acc, [t |-> "chr", v |-> a.v]))
+           ELSE IF Small(a) THEN Resolve(st2, Tail(ps), Append(acc, [t |-> "int", v |-> Val(a)]))
+           ELSE [st |-> Fail(st, "v parameter is neither an integer nor a character"), ps |-> acc]
+    ELSE IF p.t = "#" THEN Resolve(st, Tail(ps), Append(acc, [t |-> "int", v |-> Left(st)]))
+    ELSE Resolve(st, Tail(ps), Append(acc, p))
+Par(ps, i, dflt) == IF i > Len(ps) \/ ps[i].t = "none" THEN dflt ELSE ps[i].v
+HasPar(ps, i) == i <= Len(ps) /\ ps[i].t # "none"
+
+\* ~mincol,colinc,minpad,padcharA : at least minpad pad characters, then colinc at a time until mincol is reached
+RECURSIVE PadCount(_, _, _, _)
+PadCount(len, n, mincol, colinc) == IF len + n >= mincol \/ colinc <= 0 THEN n ELSE PadCount(len, n + colinc, mincol, colinc)
+PadA(txt, ps, at) == LET n == PadCount(Len(txt), Par(ps, 3, 0), Par(ps, 1, 0), Par(ps, 2, 1))  pad == Rep(Par(ps, 4, " "), n)
+                     IN IF at THEN pad \o txt ELSE txt \o pad
+\* ~mincol,padchar,commachar,comma-intervalD and relatives; ps already without the radix
+IntText(a, ps, base, colon, at) ==
+  LET ds == DigitsIn(a, base)
+      body == IF colon THEN Group(ds, Par(ps, 3, ","), Par(ps, 4, 3)) ELSE ds
+      sign == IF a.neg THEN <<"-">> ELSE IF at THEN <<"+">> ELSE <<>>
+  IN Rep(Par(ps, 2, " "), Par(ps, 1, 0) - Len(sign \o body)) \o sign \o body
+
+CharName(c) == IF c = " " THEN Chars("Space") ELSE IF c = NL THEN Chars("Newline") ELSE IF c = "\t" THEN Chars("Tab") ELSE <<c>>
+
+\* string-capitalize: words are maximal runs of letters and digits
+RECURSIVE Capitalize(_, _)
+Capitalize(cs, inWord) == IF cs = <<>> THEN <<>>
+                          ELSE LET c == Head(cs) IN <<IF inWord THEN Down(c) ELSE Up(c)>> \o Capitalize(Tail(cs), IsAlnum(c))
+\* ~@( : the first word capitalised, everything else lower case
+RECURSIVE CapFirst(_, _)
+CapFirst(cs, done) == IF cs = <<>> THEN <<>>
+                      ELSE LET c == Head(cs) IN
+                           IF ~done /\ IsAlnum(c) THEN <<Up(c)>> \o CapFirst(Tail(cs), TRUE) ELSE <<Down(c)>> \o CapFirst(Tail(cs), done)
+Convert(cs, colon, at) == IF colon /\ at THEN [i \in DOMAIN cs |-> Up(cs[i])]
+                          ELSE IF colon THEN Capitalize(cs, FALSE)
+                          ELSE IF at THEN CapFirst(cs, FALSE)
+                          ELSE [i \in DOMAIN cs |-> Down(cs[i])]
+
+RECURSIVE Run(_, _, _, _)
+RECURSIVE Iter(_, _, _, _, _, _)
+RECURSIVE IterSub(_, _, _, _, _, _, _)
+\* one directive d (parameters resolved to ps, state after resolving st) whose text ends before d.next; q bounds the current block
+Dir(ctl, d, ps, q, st) ==
+  LET arg == IF Left(st) >= 1 THEN st.args[st.ap] ELSE [k |-> "none"]
+      put(txt, used) == [st EXCEPT !.out = @ \o txt, !.ap = @ + used]
+      need(n, res) == IF Left(st) < n THEN Fail(st, "!not enough arguments") ELSE res
+  IN
+  CASE d.ch \in {"a", "s"} ->
+         need(1, put(PadA(IF arg.k = "nil" /\ d.colon THEN <<"(", ")">> ELSE IF d.ch = "a" THEN Princ(arg, st.dev) ELSE Prin1(arg), ps, d.at), 1))
+    [] d.ch \in {"d", "b", "o", "x"} ->
+         need(1, IF arg.k = "int" THEN put(IntText(arg, ps, CASE d.ch = "d" -> 10 [] d.ch = "b" -> 2 [] d.ch = "o" -> 8 [] OTHER -> 16, d.colon, d.at), 1)
+                 ELSE put(Rep(Par(ps, 2, " "), Par(ps, 1, 0) - Len(Princ(arg, st.dev))) \o Princ(arg, st.dev), 1))     \* "the Aesthetic directive is used"
+    [] d.ch = "r" ->
+         need(1, IF arg.k # "int" THEN (IF HasPar(ps, 1) THEN put(Princ(arg, st.dev), 1) ELSE Fail(st, "~R needs an integer"))
+                 ELSE IF HasPar(ps, 1) THEN (IF Par(ps, 1, 10) \in 2..36 THEN put(IntText(arg, Tail(ps), Par(ps, 1, 10), d.colon, d.at), 1)
+                                             ELSE Fail(st, "radix out of range"))
+                 ELSE IF d.at THEN (IF RomanOK(arg) THEN put(Roman(arg, IF d.colon THEN RomanOld ELSE RomanNew), 1) ELSE Fail(st, "!no Roman numeral for this number"))
+                 ELSE IF EnglishTooBig(arg) THEN Fail(st, "number too large to spell")
+                 ELSE put(JoinWords(IF d.colon THEN OrdinalWords(arg) ELSE CardinalWords(arg)), 1))
+    [] d.ch = "c" ->
+         need(1, IF arg.k # "chr" THEN Fail(st, "~C needs a character")
+                 ELSE put(IF d.at THEN <<"#", "\\">> \o CharName(arg.v) ELSE IF d.colon THEN CharName(arg.v) ELSE <<arg.v>>, 1))
+    [] d.ch = "%" -> put(Rep(NL, Par(ps, 1, 1)), 0)
+    [] d.ch = "&" -> LET n == Par(ps, 1, 1) IN
+                     \* slip's documentation: "a newline if the previous output character was not a newline" - also at the very
+                     \* start of the output, where nothing precedes (pinned by the suite: (format nil "~&") is a newline)
+                     IF n = 0 THEN st ELSE put((IF st.out # <<>> /\ st.out[Len(st.out)] = NL THEN <<>> ELSE <<NL>>) \o Rep(NL, n - 1), 0)
+    [] d.ch = "|" -> put(Rep("\f", Par(ps, 1, 1)), 0)
+    [] d.ch = "~" -> put(Rep("~", Par(ps, 1, 1)), 0)
+    [] d.ch = "t" ->
+         \* slip documents ~colnum,colincT as: "enough spaces to reach colnum or the first column after colnum assuming
+         \* colinc is the width of each column": columns are colinc wide, the target is the start of column colnum, and
+         \* beyond it the start of the next column (pinned by the suite: "abc~2,4Tdef" puts def at 8). ~colrel,colinc@T is
+         \* CLHS's: colrel spaces, then on to a multiple of colinc. A column width of 0 is not defined.
+         LET cur == Col(st.out)  n == Par(ps, 1, 1)  inc == Par(ps, 2, 1) IN
+         IF inc <= 0 THEN Fail(st, "column width 0")
+         ELSE IF d.at THEN put(Rep(" ", n + ((inc - ((cur + n) % inc)) % inc)), 0)
+         ELSE IF cur <= n * inc THEN put(Rep(" ", n * inc - cur), 0)
+         ELSE put(Rep(" ", inc - (cur % inc)), 0)
+    [] d.ch = "*" ->
+         LET n == Par(ps, 1, IF d.at THEN 0 ELSE 1)
+             target == IF d.at THEN n + 1 ELSE IF d.colon THEN st.ap - n ELSE st.ap + n
+         IN IF target < 1 \/ target > Len(st.args) + 1 THEN Fail(st, "~* moves outside the arguments") ELSE [st EXCEPT !.ap = target]
+    [] d.ch = "p" ->
+         LET st1 == IF d.colon THEN [st EXCEPT !.ap = @ - 1] ELSE st IN
+         IF st1.ap < 1 \/ st1.ap > Len(st1.args) THEN Fail(st, "!no argument for ~P")
+         ELSE LET a == st1.args[st1.ap]  one == a.k = "int" /\ ~a.neg /\ a.ds = <<1>> IN
+              [st1 EXCEPT !.ap = @ + 1, !.out = @ \o (IF d.at THEN (IF one THEN <<"y">> ELSE Chars("ies")) ELSE (IF one THEN <<>> ELSE <<"s">>))]
+    [] d.ch = "^" ->
+         \* no parameter: stop when no arguments remain; ~:^ (inside ~:{ ) when no sublists remain; one parameter: when it is zero
+         LET fire == IF HasPar(ps, 1) THEN Par(ps, 1, 1) = 0 ELSE IF d.colon THEN ~st.more ELSE Left(st) = 0 IN
+         IF fire THEN [st EXCEPT !.stop = IF d.colon THEN "all" ELSE "up"] ELSE st
+    [] d.ch = "?" ->
+         IF d.at THEN  \* the control string is an argument, the arguments are the ones that follow
+              need(1, IF arg.k # "str" THEN Fail(st, "~? needs a control string")
+                      ELSE LET r == Run(arg.v, 1, Len(arg.v) + 1, [st EXCEPT !.ap = @ + 1]) IN [r EXCEPT !.stop = "no"])
+         ELSE need(2, LET lst == st.args[st.ap + 1] IN
+                      IF arg.k # "str" \/ lst.k \notin {"list", "nil"} THEN Fail(st, "~? needs a control string and a list")
+                      ELSE LET sub == IF lst.k = "nil" THEN <<>> ELSE lst.v
+                               r == Run(arg.v, 1, Len(arg.v) + 1, St(st.out, sub, 1, st.dev))
+                           IN [st EXCEPT !.out = r.out, !.err = r.err, !.ap = @ + 2])
+    [] d.ch = "(" ->
+         LET sc == Scan(ctl, d.next, "(", ")", 0, <<>>) IN
+         IF sc.end = 0 THEN Fail(st, "no ~) for ~(")
+         ELSE LET r == Run(ctl, d.next, sc.end, st)
+                  done == [r EXCEPT !.out = SubSeq(r.out, 1, Len(st.out)) \o Convert(SubSeq(r.out, Len(st.out) + 1, Len(r.out)), d.colon, d.at)]
+              IN Run(ctl, sc.after, q, done)
+    [] d.ch = "[" ->
+         LET sc == Scan(ctl, d.next, "[", "]", 0, <<>>) IN
+         IF sc.end = 0 THEN Fail(st, "no ~] for ~[")
+         ELSE LET n == Len(sc.seps) + 1
+                  from(i) == IF i = 1 THEN d.next ELSE sc.seps[i - 1].next
+                  to(i) == IF i = n THEN sc.end ELSE sc.seps[i].at
+                  hasDefault == n >= 2 /\ sc.seps[n - 1].colon
+                  clause(i, s0) == Run(ctl, sc.after, q, Run(ctl, from(i), to(i), s0))
+                  skip(s0) == Run(ctl, sc.after, q, s0)
+              IN
+              IF d.colon THEN     \* ~:[ false ~; true ~]
+                   need(1, IF n # 2 THEN Fail(st, "~:[ needs two clauses") ELSE clause(IF arg.k = "nil" THEN 1 ELSE 2, [st EXCEPT !.ap = @ + 1]))
+              ELSE IF d.at THEN   \* ~@[ : a true argument is left for the clause, nil is consumed
+                   need(1, IF arg.k = "nil" THEN skip([st EXCEPT !.ap = @ + 1]) ELSE clause(1, st))
+              ELSE LET chosen == HasPar(ps, 1)
+                       okArg == chosen \/ (Left(st) >= 1 /\ Small(arg))
+                       idx == IF chosen THEN Par(ps, 1, 0) ELSE IF okArg THEN Val(arg) ELSE 0
+                       s0 == IF chosen THEN st ELSE [st EXCEPT !.ap = @ + 1]
+                       plain == IF hasDefault THEN n - 1 ELSE n
+                   IN IF ~okArg THEN Fail(st, "~[ needs an integer")
+                      ELSE IF idx >= 0 /\ idx < plain THEN clause(idx + 1, s0)
+                      ELSE IF hasDefault THEN clause(n, s0)
+                      ELSE skip(s0)
+    [] d.ch = "{" ->
+         LET sc == Scan(ctl, d.next, "{", "}", 0, <<>>)
+             max == Par(ps, 1, 1000)
+             once == sc.colon
+         IN
+         IF sc.end = 0 THEN Fail(st, "no ~} for ~{")
+         ELSE IF sc.end = d.next THEN Fail(st, "empty ~{~} body (an argument as the body) is not modelled")
+         ELSE IF ~d.at THEN
+              need(1, IF arg.k \notin {"list", "nil"} THEN Fail(st, "~{ needs a list")
+                      ELSE LET lst == IF arg.k = "nil" THEN <<>> ELSE arg.v
+                               r == IF d.colon THEN IterSub(ctl, d.next, sc.end, St(st.out, lst, 1, st.dev), max, once, TRUE)
+                                    ELSE Iter(ctl, d.next, sc.end, St(st.out, lst, 1, st.dev), max, once)
+                           IN Run(ctl, sc.after, q, [st EXCEPT !.out = r.out, !.err = r.err, !.ap = @ + 1]))
+         ELSE LET r == IF d.colon THEN IterSub(ctl, d.next, sc.end, st, max, once, TRUE) ELSE Iter(ctl, d.next, sc.end, st, max, once)
+              IN Run(ctl, sc.after, q, [r EXCEPT !.stop = "no"])
+    [] OTHER -> Fail(st, "directive outside the modelled set")
+
+\* run ctl[p .. q-1]
+Run(ctl, p, q, st) ==
+  IF p >= q \/ st.stop # "no" \/ st.err # "" THEN st
+  ELSE IF ctl[p] # "~" THEN Run(ctl, p + 1, q, [st EXCEPT !.out = Append(@, ctl[p])])
+  ELSE LET d == ParseDir(ctl, p + 1)  r == Resolve(st, d.params, <<>>) IN
+       IF r.st.err # "" THEN r.st
+       ELSE IF d.ch \in {"(", "[", "{"} THEN Dir(ctl, d, r.ps, q, r.st)     \* these continue after their closing directive themselves
+       ELSE Run(ctl, d.next, q, Dir(ctl, d, r.ps, q, r.st))
+
+\* ~{ body ~} and ~@{ : the body is run over the remaining arguments until none are left (tested before each
+\* round), at most max times; once: ~:} runs it at least once unless max is 0
+Iter(ctl, p, q, st, max, once) ==
+  IF st.err # "" \/ max <= 0 \/ (Left(st) = 0 /\ ~once) THEN st
+  ELSE LET r == Run(ctl, p, q, st) IN
+       IF r.stop # "no" \/ r.err # "" THEN [r EXCEPT !.stop = "no"]
+       ELSE IF r.ap = st.ap /\ Left(r) > 0 /\ max > 100 THEN Fail(r, "iteration consumes nothing")
+       ELSE Iter(ctl, p, q, r, max - 1, FALSE)
+\* ~:{ and ~:@{ : each round takes the next element, a list, as the arguments of the body
+IterSub(ctl, p, q, st, max, once, first) ==
+  IF st.err # "" \/ max <= 0 THEN st
+  ELSE IF Left(st) = 0 THEN (IF once /\ first THEN LET r == Run(ctl, p, q, [St(st.out, <<>>, 1, st.dev) EXCEPT !.more = FALSE]) IN [st EXCEPT !.out = r.out, !.err = r.err] ELSE st)
+  ELSE LET a == st.args[st.ap] IN
+       IF a.k \notin {"list", "nil"} THEN Fail(st, "~:{ needs lists")
+       ELSE LET sub == IF a.k = "nil" THEN <<>> ELSE a.v
+                r == Run(ctl, p, q, [St(st.out, sub, 1, st.dev) EXCEPT !.more = Left(st) > 1])
+                st2 == [st EXCEPT !.out = r.out, !.err = r.err, !.ap = @ + 1]
+            IN IF r.stop = "all" \/ r.err # "" THEN st2 ELSE IterSub(ctl, p, q, st2, max - 1, FALSE, FALSE)
+
+\* st: "ok" with the text; "err" when the definitions require an error (no argument left for a directive, ~* outside
+\* the arguments, no Roman numeral); "open" when the consequences are not defined (wrong kind of argument, directives
+\* outside the modelled set): such a case is not judged
+Format(ctl, args, dev) == LET r == Run(ctl, 1, Len(ctl) + 1, St(<<>>, args, 1, dev)) IN
+                     IF r.err = "" THEN [st |-> "ok", out |-> r.out, why |-> ""]
+                     ELSE [st |-> IF SubSeq(r.err, 1, 1) = "!" THEN "err" ELSE "open", out |-> <<>>, why |-> r.err]
 =============================================================================
